@@ -267,17 +267,21 @@ func (sm *Str2Str) LoadFromSlice(kk, vv []string) error {
 			return errors.New("key too large")
 		}
 	}
-	if sm.strStore == nil {
-		sm.strStore = strstore.New()
-	}
-	ids, err := sm.strStore.Load(vv)
+	// load the values into a new store and publish it only after the keys are loaded:
+	// if loading the keys fails (error or panic), the old keys keep their old store
+	st := strstore.New()
+	ids, err := st.Load(vv)
 	if err != nil {
 		return err
 	}
 	if sm.strMap == nil {
 		sm.strMap = New[int]()
 	}
-	return sm.strMap.LoadFromSlice(kk, ids)
+	if err := sm.strMap.LoadFromSlice(kk, ids); err != nil {
+		return err
+	}
+	sm.strStore = st
+	return nil
 }
 
 // LoadFromMap resets Str2Str and loads from map.
